@@ -292,6 +292,46 @@ def gen_taxonomy_codes():
     return "\n".join(lines) + "\n", info
 
 
+# --------------------------------------------------------------------------- the user manual's table of Allen relations
+
+MANUAL_ROW = re.compile(
+    r"\|\s*\\\(X\\\)\s*`([^`]+)`\s*\\\(Y\\\)[^|]*\|\s*\\\(Y\\\)\s*`([^`]+)`\s*\\\(X\\\)[^|]*\|\s*`([^`]+)`\s*$"
+)
+
+
+def gen_manual():
+    """The seven rows `X name Y | Y converse X | key` of docs/md/pipeline_documentation.md: what "the keys given in
+    the user manual" are (C08). The specification's table is compared with these rows by a theorem."""
+    path = REPO / "docs" / "md" / "pipeline_documentation.md"
+    lines = [
+        "-- GENERATED by /verif/translator/gen.py from docs/md/pipeline_documentation.md. DO NOT EDIT.",
+        "import Paroxy.Model.CompareSpans",
+        "namespace Paroxy.Gen",
+        "open Paroxy",
+    ]
+    info = {"source": str(path)}
+    try:
+        rows = []
+        for line in path.read_text(encoding="utf-8").split("\n"):
+            m = MANUAL_ROW.search(line.replace("&nbsp;", " "))
+            if m:
+                rows.append((m.group(1).strip(), m.group(2).strip(), m.group(3).strip()))
+        if not rows:
+            raise Unsupported("no row of the Allen table found in the manual")
+        lines.append("def manualOk : Bool := true")
+        lines.append("def manualRows : List (Codes × Codes × Codes) := [")
+        lines.append(",\n".join(f"  ({codes(a)}, {codes(b)}, {codes(k)}) /- X {a} Y | Y {b} X | {k} -/" for a, b, k in rows))
+        lines.append("]")
+        info.update(ok=True, rows=len(rows))
+    except (Unsupported, OSError) as exc:
+        lines.append(f"-- translator failure: {exc!r}".replace("\n", " "))
+        lines.append("def manualOk : Bool := false")
+        lines.append("def manualRows : List (Codes × Codes × Codes) := []")
+        info.update(ok=False, error=repr(exc))
+    lines.append("end Paroxy.Gen")
+    return "\n".join(lines) + "\n", info
+
+
 def write_if_changed(path: Path, text: str) -> bool:
     if path.exists() and path.read_text(encoding="utf-8") == text:
         return False
@@ -303,7 +343,7 @@ def write_if_changed(path: Path, text: str) -> bool:
 def main():
     report = {}
     for name, fn in (("CompareSpans", gen_compare_spans), ("Taxonomy", gen_taxonomy),
-                     ("TaxonomyCodes", gen_taxonomy_codes)):
+                     ("TaxonomyCodes", gen_taxonomy_codes), ("Manual", gen_manual)):
         text, info = fn()
         info["changed"] = write_if_changed(OUT / f"{name}.lean", text)
         report[name] = info
